@@ -19,6 +19,7 @@ import (
 	"math/rand"
 	"os"
 	"path/filepath"
+	"reflect"
 	"regexp"
 	"regexp/syntax"
 	"sort"
@@ -28,6 +29,8 @@ import (
 
 	"github.com/invopop/gobl"
 	"github.com/invopop/gobl/bill"
+	"github.com/invopop/gobl/schema"
+	"github.com/invopop/jsonschema"
 	"goblverif/internal/tr"
 )
 
@@ -401,6 +404,85 @@ type schemaJob struct {
 	Del  bool   `json:"del"`
 }
 
+// enumEvent: one value that the running library itself enumerates for a schema location (reflection of the
+// registered types, as the repository's generator does it); the published schema must accept it there.
+type enumEvent struct {
+	K    string   `json:"k"` // enum
+	ID   string   `json:"id"`
+	Segs []string `json:"segs"`
+	Val  any      `json:"val"`
+	Text string   `json:"text"`
+}
+
+func collectEnums(x any, segs []string, emit func(segs []string, v any)) {
+	switch v := x.(type) {
+	case map[string]any:
+		for _, kw := range []string{"oneOf", "anyOf"} {
+			if arr, ok := v[kw].([]any); ok {
+				for _, e := range arr {
+					if em, ok := e.(map[string]any); ok {
+						if c, has := em["const"]; has {
+							emit(segs, c)
+						}
+					}
+				}
+			}
+		}
+		if arr, ok := v["enum"].([]any); ok {
+			for _, c := range arr {
+				emit(segs, c)
+			}
+		}
+		for k, y := range v {
+			collectEnums(y, append(append([]string{}, segs...), k), emit)
+		}
+	case []any:
+		for i, y := range v {
+			collectEnums(y, append(append([]string{}, segs...), fmt.Sprint(i)), emit)
+		}
+	}
+}
+
+func reflectedEnums(w *tr.Writer) (int, error) {
+	r := new(jsonschema.Reflector)
+	r.AllowAdditionalProperties = true
+	typs := schema.Types()
+	r.Lookup = func(t reflect.Type) jsonschema.ID {
+		if id, ok := typs[t]; ok {
+			return jsonschema.ID(id.String())
+		}
+		return jsonschema.EmptyID
+	}
+	n := 0
+	type entry struct {
+		t  reflect.Type
+		id string
+	}
+	var list []entry
+	for t, id := range typs {
+		list = append(list, entry{t, id.String()})
+	}
+	sort.Slice(list, func(i, j int) bool { return list[i].id < list[j].id })
+	for _, e := range list {
+		js := r.ReflectFromType(e.t)
+		raw, err := json.Marshal(js)
+		if err != nil {
+			return n, err
+		}
+		dec := json.NewDecoder(bytes.NewReader(raw))
+		dec.UseNumber()
+		var x any
+		if err := dec.Decode(&x); err != nil {
+			return n, err
+		}
+		collectEnums(x, nil, func(segs []string, v any) {
+			n++
+			w.Emit(enumEvent{K: "enum", ID: e.id, Segs: append([]string{}, segs...), Val: tagValueC(v), Text: fmt.Sprint(v)})
+		})
+	}
+	return n, nil
+}
+
 func schemaRun(repo, out string, seed int64, maxInst, maxDocs int, only string) error {
 	var one *schemaJob
 	if only != "" {
@@ -654,6 +736,13 @@ func schemaRun(repo, out string, seed int64, maxInst, maxDocs int, only string) 
 	}
 	for _, a := range chosen {
 		w.Emit(a.ev)
+	}
+	if one == nil {
+		n, err := reflectedEnums(w)
+		if err != nil {
+			return err
+		}
+		stats["enumerated-values"] = n
 	}
 	if err := w.Close(); err != nil {
 		return err
